@@ -1,3 +1,4 @@
+mod checks_crash;
 mod checks_pure;
 mod checks_t;
 mod explore;
@@ -19,6 +20,7 @@ fn main() {
         let code = match v["replay"]["history"]["engine"].as_str() {
             Some("T") => tmodel::replay(&v),
             Some("X") => checks_pure::c19_replay(&v),
+            _ if v["replay"]["engine"].as_str() == Some("crash") => checks_crash::replay(&v),
             _ => {
                 eprintln!("no replayer for this file");
                 2
@@ -31,6 +33,7 @@ fn main() {
         "smoke" => smoke(),
         "C01" => checks_t::c01(a.tier),
         "C02" => checks_t::c02(a.tier),
+        "C03" => checks_crash::c03(a.tier),
         "C04" => checks_t::c04(a.tier),
         "C07" => checks_t::c07(a.tier),
         "C08" => checks_t::c08(a.tier),
